@@ -382,6 +382,54 @@ M('c19-strcpy-unbounded', 'C19', 'src/utilities/qstring.c', "    size_t nbytes =
 M('c19-trim-memcpy', 'C19', 'src/utilities/qstring.c', "        size_t len = (se - ss) + 1;\n        memmove(str, ss, len);\n    }\n\n    return str;", "        size_t len = (se - ss) + 1;\n        memcpy(str, ss, len);\n    }\n\n    return str;", 'M1', None, 'in-place trim with memcpy')
 
 
+# ---- wave 9 rules ----------------------------------------------------------------------------
+_FMT_OLD = "            if (_n >= 0 && _n < _strsize) break;                        \\\n"
+_FMT_NEW = "            if (_n >= 0 && _n <= _strsize) break;                       \\\n"
+for _p, _fn in (('C01', 'qtreetbl_putstrf'), ('C05', 'qhashtbl_putstrf'), ('C08', 'qlisttbl_putstrf'), ('C09', 'qgrow_addstrf'),
+                ('C19', 'qstrdupf')):
+    M('%s-fmt-accept-equal' % _p.lower(), _p, 'src/internal/qinternal.h', _FMT_OLD, _FMT_NEW, 'F1', _fn,
+      'formatted result equal to the buffer size accepted (last character cut off)')
+M('c07-digest-skipped-upto-namesize', 'C07', 'src/containers/qhasharr.c',
+  "    unsigned char namemd5[16];\n    qhashmd5(name, namesize, namemd5);\n\n    // store name",
+  "    unsigned char namemd5[16];\n    memset(namemd5, 0, sizeof(namemd5));\n    if (namesize > Q_HASHARR_NAMESIZE + 1) qhashmd5(name, namesize, namemd5);\n\n    // store name",
+  'I10', None, 'digest skipped for 17-byte keys, which the reader looks up by digest')
+M('c07-collision-release-no-counter', 'C07', 'src/containers/qhasharr.c',
+  "        tblslots[tblslots[idx].hash].count--;\n\n        // remove data\n        remove_data(tbl, idx);",
+  "        // remove data\n        remove_data(tbl, idx);", 'I11', 'qhasharr_remove_by_idx',
+  'collision entry released without decrementing the leading slot counter')
+M('c07-ring-start-unchecked', 'C07', 'src/containers/qhasharr.c',
+  "        for (idx2 = idx + 1;; idx2++) {\n            if (idx2 >= tbldata->maxslots)\n                idx2 = 0;\n            if (idx2 == idx) {",
+  "        for (idx2 = idx + 1;; idx2++) {\n            if (idx2 > tbldata->maxslots)\n                idx2 = 0;\n            if (idx2 == idx) {",
+  'I12', 'qhasharr_remove_by_idx', 'wrap test lets index == maxslots through')
+M('c11-ring-start-unchecked', 'C11', 'src/containers/qhasharr.c',
+  "        for (idx2 = idx + 1;; idx2++) {\n            if (idx2 >= tbldata->maxslots)\n                idx2 = 0;\n            if (idx2 == idx) {",
+  "        for (idx2 = idx + 1;; idx2++) {\n            if (idx2 == idx) {", 'I12', 'qhasharr_remove_by_idx', 'wrap dropped from the ring walk')
+_DL3_OLD = "    // if unique flag is set, remove same key\n    if (tbl->unique == true) qlisttbl_remove(tbl, name);\n\n    // insert into table\n    if (tbl->num == 0) {\n        obj->prev = NULL;\n        obj->next = NULL;\n    } else {\n        if (inserttop == false) {\n            obj->prev = tbl->last;\n            obj->next = NULL;\n        } else {\n            obj->prev = NULL;\n            obj->next = tbl->first;\n        }\n    }\n    insertobj(tbl, obj);"
+_DL3_NEW = "    // insert into table\n    if (tbl->num == 0) {\n        obj->prev = NULL;\n        obj->next = NULL;\n    } else {\n        if (inserttop == false) {\n            obj->prev = tbl->last;\n            obj->next = NULL;\n        } else {\n            obj->prev = NULL;\n            obj->next = tbl->first;\n        }\n    }\n    // if unique flag is set, remove same key\n    if (tbl->unique == true) qlisttbl_remove(tbl, name);\n    insertobj(tbl, obj);"
+M('c11-position-before-removal', 'C11', 'src/containers/qlisttbl.c', _DL3_OLD, _DL3_NEW, 'DL3', 'putdata',
+  'neighbour sampled before the unique-key removal may free it')
+M('c08-position-before-removal', 'C08', 'src/containers/qlisttbl.c', _DL3_OLD, _DL3_NEW, 'DL3', 'putdata',
+  'neighbour sampled before the unique-key removal may free it')
+
+
+M('c16-url-encode-dot-passthrough', 'C16', 'src/utilities/qencode.c',
+  "        if (URLCHARTBL[c] != 0) {\n            *pszEncPt++ = *pBinPt;\n        } else {",
+  "        if (URLCHARTBL[c] != 0) {\n            *pszEncPt++ = *pBinPt;\n        } else if (c == '~') {\n            *pszEncPt++ = *pBinPt;\n        } else {",
+  'TB1', 'qurl_encode', 'a byte the table marks must-encode is copied through by a second arm')
+M('c16-query-skip-valueless', 'C16', 'src/utilities/qencode.c',
+  "        qurl_decode(name);\n        qurl_decode(value);\n\n        if (tbl->putstr(tbl, name, value) == true) {",
+  "        qurl_decode(name);\n        qurl_decode(value);\n        if (*value == '\\0') {\n            free(name);\n            free(value);\n            continue;\n        }\n\n        if (tbl->putstr(tbl, name, value) == true) {",
+  'TB18', 'qparse_queries', 'pairs with an empty value are dropped instead of stored')
+M('c16-hex-encode-static-cache', 'C16', 'src/utilities/qencode.c',
+  "char *qhex_encode(const void *bin, size_t size) {\n",
+  "char *qhex_encode(const void *bin, size_t size) {\n    static size_t lastsize = 0;\n    if (size == 0) size = lastsize;\n    lastsize = size;\n",
+  'TB17', 'qhex_encode', 'encoder result depends on mutable static state left by the previous call')
+M('c18-file-digest-eintr', 'C18', 'src/utilities/qhash.c',
+  "        if (nread < 0)\n            break;\n        MD5Update(&context, buf, nread);",
+  "        if (nread < 0 && errno != EINTR)\n            break;\n        MD5Update(&context, buf, nread);",
+  'H8', 'qhashmd5_file', 'a negative read result reaches the digest update and the remaining-count arithmetic')
+
+
 def run_selftest(prop, rep, rule_fn, config='cmake-release'):
     """Apply every mutant of `prop` to a scratch copy, run rule_fn(prog, report) on it, and
     require a finding of the expected rule (and function)."""
